@@ -522,6 +522,16 @@ class BlockInterp:
                 break
             stack.extend(ast.iter_child_nodes(x))
 
+        # default values are objects created once and shared by every call (CPython evaluates them when the `def`
+        # statement runs; here: on the first call, because module-level names are bound in two passes) - a mutable
+        # default that a call modifies is visible to the next call
+        default_cache = {}
+
+        def default_value(key, d):
+            if key not in default_cache:
+                default_cache[key] = outer.me.ev(d)
+            return default_cache[key]
+
         def closure(*args, **kwargs):
             a = fdef.args
             names = [x.arg for x in a.posonlyargs + a.args]
@@ -529,7 +539,7 @@ class BlockInterp:
             defaults = [None] * (len(names) - len(a.defaults)) + list(a.defaults)
             for nm, d in zip(names, defaults):
                 if d is not None:
-                    env[nm] = outer.me.ev(d)
+                    env[nm] = default_value(nm, d)
             for nm, v in zip(names, args):
                 env[nm] = v
             if len(args) > len(names):
@@ -540,7 +550,7 @@ class BlockInterp:
                 env[a.vararg.arg] = ()
             for kw, d in zip(a.kwonlyargs, a.kw_defaults):
                 if d is not None:
-                    env[kw.arg] = outer.me.ev(d)
+                    env[kw.arg] = default_value(kw.arg, d)
             known = set(names) | {x.arg for x in a.kwonlyargs}
             extra = {}
             for k, v in kwargs.items():
